@@ -143,3 +143,82 @@ def unused_parameters(ctx, rule, select):
             fro = UNUSED_PARAM_FROZEN.get((fi.qual, p))
             ctx.ob(rule, fi, p in used or bool(fro), "%s uses its parameter %s" % (fi.qual, p), key="param %s used" % p, detail=fro)
     return n
+
+
+ATTR_FROZEN = {
+    ("Construct", "subcons"): "read only under isinstance(self, Struct) in the + / >> operators",
+    ("EnumIntegerString", "intvalue"): "set on the new object by the static factory EnumIntegerString.new",
+    ("HexDisplayedInteger", "fmtstr"): "set on the new object by the static factory HexDisplayedInteger.new",
+}
+
+
+def attributes_defined(ctx, rule, select=lambda ci: True):
+    """Every attribute a class reads from self is assigned somewhere in the class or its bases (an __init__ that no longer stores a parameter,
+    or no longer calls super().__init__, makes the first use raise AttributeError -- not a ConstructError, and not what the format says)."""
+    import ast as _ast
+    M = ctx.model
+    n = 0
+    for ci in M.classes.values():
+        if ci.relpath.endswith("debug.py") or not select(ci):
+            continue
+        mro = list(ci.mro) if ci.mro else [ci]
+        assigned = set()
+        for c in mro:
+            assigned |= set(c.assigns) | set(c.methods)
+            # an assignment in a method counts only if that method belongs to the class or a base whose __init__ chain is intact:
+            # attributes stored by a base __init__ are available only if every __init__ between calls super().__init__
+            for st in _ast.walk(c.node):
+                if isinstance(st, _ast.Attribute) and isinstance(st.ctx, _ast.Store) and isinstance(st.value, _ast.Name) and st.value.id == "self":
+                    assigned.add(st.attr)
+        # super().__init__ chain: a class that defines __init__ and has a base (other than object) defining __init__ must call it
+        chain_ok = True
+        if "__init__" in ci.methods:
+            base_has = any("__init__" in c.methods for c in mro[1:])
+            calls_super = any(isinstance(x, _ast.Call) and isinstance(x.func, _ast.Attribute) and x.func.attr == "__init__" and isinstance(x.func.value, _ast.Call)
+                              and isinstance(x.func.value.func, _ast.Name) and x.func.value.func.id == "super" for x in _ast.walk(ci.methods["__init__"]))
+            explicit = any(isinstance(x, _ast.Call) and isinstance(x.func, _ast.Attribute) and x.func.attr == "__init__" and isinstance(x.func.value, _ast.Name)
+                           and x.func.value.id in M.classes for x in _ast.walk(ci.methods["__init__"]))
+            chain_ok = (not base_has) or calls_super or explicit
+            n += 1
+            ctx.ob(rule, ci.name, chain_ok, "%s.__init__ calls the __init__ of its base class (which stores the attributes the inherited methods read)" % ci.name, key="%s super init" % ci.name, loc=ci.relpath)
+        reads = set()
+        for m in ci.methods.values():
+            for st in _ast.walk(m):
+                if isinstance(st, _ast.Attribute) and isinstance(st.ctx, _ast.Load) and isinstance(st.value, _ast.Name) and st.value.id == "self":
+                    reads.add(st.attr)
+        for r in sorted(reads):
+            if r.startswith("__") and r.endswith("__"):
+                continue
+            n += 1
+            ok = r in assigned or (ci.name, r) in ATTR_FROZEN
+            ctx.ob(rule, ci.name, ok, "%s reads self.%s, which is assigned in the class or one of its bases" % (ci.name, r), key="%s.%s defined" % (ci.name, r), loc=ci.relpath, detail=ATTR_FROZEN.get((ci.name, r)))
+    return n
+
+
+UNDEF_FROZEN = {
+    ("FocusedSeq._parse", "finalret"): "unbound only when parsebuildfrom names no member (construction misuse)",
+    ("FocusedSeq._build", "finalret"): "unbound only when parsebuildfrom names no member (construction misuse)",
+    ("Union._emitparse", "skipfallback"): "unbound only for a callable parsefrom, which the emitter does not support", ("Union._emitparse", "skipforward"): "see skipfallback",
+    ("Union._emitparse", "index"): "see skipfallback",
+    ("RestreamData._parse", "stream2"): "unbound only for a datafunc of an undocumented type (construction misuse)",
+    ("Transformed._parse", "data"): "unbound only for a decodeamount that is neither None nor int (construction misuse)",
+}
+
+
+def no_undefined_names(ctx, rule, select=lambda fi: True):
+    """No function reads a local name on a path on which it was never bound (NameError / UnboundLocalError is not a ConstructError)."""
+    M = ctx.model
+    n = 0
+    for fi in M.all_functions():
+        if fi.relpath.endswith("debug.py") or not select(fi):
+            continue
+        try:
+            ps = paths_of(ctx, fi, fi.cls.name if fi.cls else None)
+        except AnalysisError:
+            continue
+        names = sorted({e["name"] for p in ps for e in p.events if e.kind == "UNDEF"})
+        n += 1
+        bad = [x for x in names if (fi.qual, x) not in UNDEF_FROZEN]
+        ctx.ob(rule, fi, not bad, "%s binds every name before it reads it on every path%s" % (fi.qual, (" (unbound: %s)" % bad) if bad else ""), key="names bound",
+               detail="; ".join(UNDEF_FROZEN[(fi.qual, x)] for x in names if (fi.qual, x) in UNDEF_FROZEN) or None)
+    return n
